@@ -137,10 +137,24 @@ def check_rw(ctx, drv, case):
     from hypergraphx.dynamics import randwalk as RW
     n, edges, node_order, npseed = case["N"], [tuple(e) for e in case["edges"]], case["node_order"], case["npseed"]
     rng_local = __import__("random").Random(npseed)
-    st, h = call(build, edges, node_order)
+    warm = case.get("warm")
+    st, h = call(build, [tuple(e) for e in warm] if warm else edges, node_order)
     if st != "ok":
         ctx.violation(case, f"building the hypergraph failed: {h}")
         return
+    if warm:
+        # the SAME object is first used with another hyperedge list of the same length (every routine called once),
+        # then rewired in place to the case's hyperedges: results must depend on the current content only
+        ctx.count("rw_same_object_rewired")
+        call(RW.transition_matrix, h)
+        call(RW.RW_stationary_state, h)
+        call(RW.random_walk_density, h, np.array([1.0] + [0.0] * (n - 1)), 1)
+        call(RW.random_walk, h, 0, 1)
+        ws, es = {tuple(sorted(e)) for e in warm}, {tuple(sorted(e)) for e in edges}
+        for e in sorted(ws - es):
+            call(h.remove_edge, e)
+        for e in sorted(es - ws):
+            call(h.add_edge, e)
     E = sorted(tuple(sorted(e)) for e in edges)
     conn = is_connected_oracle(n, E)
     # the property's closed forms, straight from the hyperedge list
@@ -441,7 +455,19 @@ def gen_rw(rng):
     order = list(range(n))
     if rng.random() < 0.5:
         rng.shuffle(order)
-    return {"kind": "rw", "N": n, "edges": [list(e) for e in edges], "node_order": order, "npseed": rng.randrange(2 ** 31)}
+    case = {"kind": "rw", "N": n, "edges": [list(e) for e in edges], "node_order": order, "npseed": rng.randrange(2 ** 31)}
+    if n >= 3 and len(edges) >= 2 and rng.random() < 0.25:
+        # an earlier content of the same object: same number of nodes and hyperedges, one hyperedge different
+        cur = {tuple(sorted(e)) for e in edges}
+        for _ in range(10):
+            e2 = tuple(sorted(rng.sample(range(n), rng.choice([2, 2, 3]) if n >= 3 else 2)))
+            if e2 not in cur:
+                w = [list(e) for e in edges]
+                w[rng.randrange(len(w))] = list(e2)
+                if len({tuple(sorted(e)) for e in w}) == len(edges):
+                    case["warm"] = w
+                break
+    return case
 
 
 def gen_cont(rng):
